@@ -92,16 +92,16 @@ func GenOptions(t *rapid.T) Options {
 	o.XML.Decl = rapid.SampledFrom([]string{"", "", "short", "none"}).Draw(t, "decl")
 	o.XML.ExplicitEnd = rapid.Bool().Draw(t, "explicit_end")
 	o.XML.AttrReverse = rapid.Bool().Draw(t, "attr_reverse")
-	o.XML.SingleQuote = rapid.IntRange(0, 3).Draw(t, "squote") == 0
-	o.XML.Pretty = rapid.IntRange(0, 3).Draw(t, "pretty") == 0
-	o.XML.CharRefs = rapid.IntRange(0, 3).Draw(t, "charrefs") == 0
+	o.XML.SingleQuote = rapid.IntRange(0, 3).Draw(t, "squote") == 3
+	o.XML.Pretty = rapid.IntRange(0, 3).Draw(t, "pretty") == 3
+	o.XML.CharRefs = rapid.IntRange(0, 3).Draw(t, "charrefs") == 3
 	o.Prefix = rapid.SampledFrom([]string{"", "", "ns0", "x", "-"}).Draw(t, "prefix")
 	if rapid.Bool().Draw(t, "shuffle") {
 		o.Order = rapid.Permutation([]int{0, 1, 2, 3, 4, 5, 6, 7, 8, 9, 10, 11}).Draw(t, "order")
 	}
-	o.StoreAll = rapid.IntRange(0, 3).Draw(t, "store") == 0
+	o.StoreAll = rapid.IntRange(0, 3).Draw(t, "store") == 3
 	o.AlwaysStyles = rapid.Bool().Draw(t, "always_styles")
-	o.AlwaysNumbering = rapid.IntRange(0, 3).Draw(t, "always_numbering") == 0
+	o.AlwaysNumbering = rapid.IntRange(0, 3).Draw(t, "always_numbering") == 3
 	o.Settings = rapid.Bool().Draw(t, "settings")
 	o.SectPr = rapid.Bool().Draw(t, "sectpr")
 	o.Noise = rapid.Bool().Draw(t, "noise")
@@ -109,7 +109,7 @@ func GenOptions(t *rapid.T) Options {
 	o.NoPreserve = rapid.Bool().Draw(t, "no_preserve")
 	o.BreakType = rapid.Bool().Draw(t, "break_type")
 	o.VMergeContinue = rapid.Bool().Draw(t, "vmerge_continue")
-	o.SpanOne = rapid.IntRange(0, 3).Draw(t, "span_one") == 0
+	o.SpanOne = rapid.IntRange(0, 3).Draw(t, "span_one") == 3
 	o.BulletPUA = rapid.Bool().Draw(t, "bullet_pua")
 	o.NumIDShift = rapid.SampledFrom([]int{0, 0, 4, 10}).Draw(t, "numid_shift")
 	o.TableStyle = rapid.Bool().Draw(t, "table_style")
